@@ -13,7 +13,7 @@ ROOT = os.path.dirname(os.path.dirname(os.path.abspath(__file__)))
 BUILD = os.path.join(ROOT, "build")
 
 VERIF_FAIL = re.compile(
-    r"postcondition not satisfied|precondition not satisfied|assertion failed|invariant not satisfied|"
+    r"postcondition not satisfied|precondition not satisfied|precondition not met|assertion failed|invariant not satisfied|"
     r"possible arithmetic (under|over)flow|possible division by zero|possible bit shift|"
     r"loop invariant|decreases not satisfied|could not prove termination|index out of bounds|"
     r"unreachable|failed to (prove|satisfy)|assert_by_compute|constructor of a datatype|"
